@@ -893,7 +893,17 @@ def main():
     V.build_gatery()
     harness = V.build_harness("C12_cdc", extra_flags=["-fno-access-control"])   # reads ExternalModule::Node_External_Exposed::m_inClock
     res = V.check_properties(CID)
-    driver = V.build_model(CID)
+    driver = None
+    for attempt in range(5):
+        try:
+            driver = V.build_model(CID)
+            break
+        except FileNotFoundError:
+            # vcommon.build_model stats every .vo of the shared project; a concurrently running check of another
+            # property may just be rebuilding its Properties_*.vo -- retry
+            time.sleep(2)
+    else:
+        V.infra_error("build_model: the shared coq tree kept changing under us")
     if "--build-only" in argv:
         sys.exit(0)
     rep = V.Report(CID)
